@@ -55,9 +55,14 @@ func TestMain(m *testing.M) {
 }
 
 type verifWorld struct {
-	sim  *verifsim.Sim
-	h    *verifsim.Host
-	name map[string]string // URL -> abstract name of a hook target
+	sim        *verifsim.Sim
+	h          *verifsim.Host
+	name       map[string]string // URL -> abstract name of a hook target
+	id         string            // "w1" / "w2" (UI.tla's World)
+	actors     []string
+	activityOf map[string]string // target title -> activity name
+	startA     string            // address of the actor page / the post page sessions start on
+	startP     string
 }
 
 func (w *verifWorld) put(target string, doc map[string]any) {
@@ -93,6 +98,54 @@ func verifBuildWorld(sim *verifsim.Sim) *verifWorld {
 	w.name[u("/media/alice.png")] = "pic_alice"
 	w.name[u("/notes/n3")] = "n3"
 	w.name[u("/missing")] = "fo"
+	w.id, w.actors, w.activityOf = "w1", []string{"alice", "bob"}, map[string]string{"n1": "a1", "n3": "a2"}
+	w.startA, w.startP = "/users/alice", "/notes/n2"
+	return w
+}
+
+/* UI.tla's world "w2": a paged outbox, a long ancestor chain, a broken parent, a group recipient, a banner */
+func verifBuildWorld2(sim *verifsim.Sim) *verifWorld {
+	w := &verifWorld{sim: sim, h: sim.Host("u2"), name: map[string]string{}}
+	u := w.h.URL
+	create := func(k int) map[string]any {
+		return map[string]any{"id": u(fmt.Sprintf("/acts/c%d", k)), "type": "Create", "actor": u("/users/carol"), "object": u(fmt.Sprintf("/notes/m%d", k)),
+			"published": fmt.Sprintf("2024-03-%02dT00:00:00Z", 20-k)}
+	}
+	w.put("/users/carol", map[string]any{"type": "Person", "name": "carol", "preferredUsername": "carol", "published": "2020-01-01T00:00:00Z",
+		"icon":  map[string]any{"type": "Image", "url": u("/media/carol.png"), "mediaType": "image/png"},
+		"image": map[string]any{"type": "Image", "url": u("/media/carol-banner.jpg"), "mediaType": "image/jpeg"},
+		"outbox": u("/users/carol/outbox")})
+	w.put("/users/carol/outbox", map[string]any{"type": "OrderedCollection", "totalItems": 5, "first": u("/users/carol/outbox?page=1")})
+	w.put("/users/carol/outbox?page=1", map[string]any{"type": "OrderedCollectionPage", "orderedItems": []any{create(1), u("/acts/c2"), create(3)}, "next": u("/users/carol/outbox?page=2")})
+	w.put("/users/carol/outbox?page=2", map[string]any{"type": "OrderedCollectionPage", "orderedItems": []any{u("/acts/c4"), create(5)}})
+	for k := 1; k <= 5; k++ {
+		w.put(fmt.Sprintf("/acts/c%d", k), create(k))
+	}
+	w.put("/groups/grp", map[string]any{"type": "Group", "name": "grp", "preferredUsername": "grp", "published": "2020-01-03T00:00:00Z"})
+	note := func(name string, extra map[string]any) {
+		doc := map[string]any{"type": "Note", "name": name, "attributedTo": u("/users/carol"), "published": "2024-01-05T00:00:00Z", "content": "<p>post " + name + "</p>"}
+		for k, v := range extra {
+			doc[k] = v
+		}
+		w.put("/notes/"+name, doc)
+	}
+	note("m1", map[string]any{"audience": u("/groups/grp"), "content": `<p>see <a href="` + u("/notes/q4") + `">the root</a></p>`})
+	note("m2", map[string]any{"inReplyTo": u("/notes/q1"), "url": map[string]any{"type": "Link", "href": u("/media/m2.mp4"), "mediaType": "video/mp4"}})
+	note("q1", map[string]any{"inReplyTo": u("/notes/q2")})
+	note("q2", map[string]any{"inReplyTo": u("/notes/q3")})
+	note("q3", map[string]any{"inReplyTo": u("/notes/q4")})
+	note("q4", nil)
+	note("m3", map[string]any{"inReplyTo": u("/notes/gone")})
+	note("m4", map[string]any{"replies": map[string]any{"id": u("/notes/m4/replies"), "type": "Collection", "items": []any{u("/notes/m5")}}})
+	note("m5", map[string]any{"inReplyTo": u("/notes/m4")})
+	w.name[u("/media/m2.mp4")] = "media_m2"
+	w.name[u("/media/carol.png")] = "pic_carol"
+	w.name[u("/media/carol-banner.jpg")] = "banner_carol"
+	w.name[u("/notes/q4")] = "q4"
+	w.name[u("/missing")] = "fo"
+	w.id, w.actors = "w2", []string{"carol", "grp"}
+	w.activityOf = map[string]string{"m1": "c1", "m2": "c2", "m3": "c3", "m4": "c4", "m5": "c5"}
+	w.startA, w.startP = "/users/carol", "/notes/m2"
 	return w
 }
 
@@ -115,10 +168,10 @@ func (w *verifWorld) expand(tok string) []byte {
 		return []byte{'z'}
 	case "hi":
 		return []byte{0xe9}
-	case "open_alice":
-		return []byte("open " + u("/users/alice"))
-	case "open_n2":
-		return []byte("open " + u("/notes/n2"))
+	case "open_a":
+		return []byte("open " + u(w.startA))
+	case "open_p":
+		return []byte("open " + u(w.startP))
 	case "open_bad":
 		return []byte("open " + u("/missing"))
 	case "feed_f":
@@ -133,7 +186,10 @@ func (w *verifWorld) expand(tok string) []byte {
 
 var verifSGRre = regexp.MustCompile("\x1b\\[[0-9;]*m")
 
+var verifCurrentWorld *verifWorld
+
 func verifIdent(t pub.Tangible) string {
+	w := verifCurrentWorld
 	if t == nil {
 		return "none"
 	}
@@ -142,7 +198,7 @@ func verifIdent(t pub.Tangible) string {
 		return "fail"
 	case *pub.Actor:
 		name := verifSGRre.ReplaceAllString(x.Name(), "")
-		for _, n := range []string{"alice", "bob"} {
+		for _, n := range w.actors {
 			if strings.HasPrefix(name, n) {
 				return n
 			}
@@ -151,11 +207,8 @@ func verifIdent(t pub.Tangible) string {
 	case *pub.Post:
 		return x.Name()
 	case *pub.Activity:
-		switch x.Name() {
-		case "n1":
-			return "a1"
-		case "n3":
-			return "a2"
+		if a, ok := w.activityOf[x.Name()]; ok {
+			return a
 		}
 		return "activity?" + x.Name()
 	}
@@ -403,8 +456,13 @@ func verifSetup(t *testing.T) (*verifWorld, *verifkit.Trace) {
 	jtp.VerifSetTimeout(3 * time.Second)
 	jtp.VerifSetCache(256)
 	w := verifBuildWorld(sim)
-	config.Parsed.Network.Context = 2
 	config.Parsed.Feeds = map[string][]string{"f": {w.h.URL("/users/alice"), w.h.URL("/users/bob")}}
+	if os.Getenv("VERIF_WORLD") == "w2" {
+		w = verifBuildWorld2(sim)
+		config.Parsed.Feeds = map[string][]string{"f": {w.h.URL("/users/carol"), w.h.URL("/groups/grp")}}
+	}
+	verifCurrentWorld = w
+	config.Parsed.Network.Context = 2
 	config.Parsed.Media.Hook = []string{os.Args[0], "--verif-hook", "%url", "%mimetype"}
 	return w, verifkit.Out()
 }
@@ -425,9 +483,9 @@ func TestVerifKeys(t *testing.T) {
 		sid++
 		v := verifNewSession(w, out, sid, in.Frames)
 		start := strings.TrimPrefix(toks[0], "start_")
-		target := map[string]string{"alice": "/users/alice", "n2": "/notes/n2"}[start]
+		target := map[string]string{"a": w.startA, "p": w.startP}[start]
 		lens := verifkit.M{}
-		for _, macro := range []string{"open_alice", "open_n2", "open_bad", "feed_f", "feed_u", "bad_cmd"} {
+		for _, macro := range []string{"open_a", "open_p", "open_bad", "feed_f", "feed_u", "bad_cmd"} {
 			lens[macro] = len(w.expand(macro))
 		}
 		out.Emit(verifkit.M{"ev": "reset", "sid": sid, "start": start, "keys": toks[1:], "lens": lens})
@@ -470,7 +528,11 @@ func TestVerifKeys(t *testing.T) {
 	for i := 0; i < in.Wild; i++ {
 		sid++
 		v := verifNewSession(w, out, sid, in.Frames)
-		start := []string{"/users/alice", "/notes/n2", "/notes/n1", "/users/bob", "/missing", "/users/bob/outbox", "/notes/n1/replies"}[rng.Intn(7)]
+		starts := []string{"/users/alice", "/notes/n2", "/notes/n1", "/users/bob", "/missing", "/users/bob/outbox", "/notes/n1/replies"}
+		if w.id == "w2" {
+			starts = []string{"/users/carol", "/notes/m2", "/notes/m3", "/groups/grp", "/missing", "/users/carol/outbox", "/users/carol/outbox?page=2", "/notes/m4/replies", "/notes/q1"}
+		}
+		start := starts[rng.Intn(len(starts))]
 		n := 5 + rng.Intn(60)
 		keys := make([]byte, n)
 		for j := range keys {
@@ -787,8 +849,8 @@ func TestVerifConc(t *testing.T) {
 		jtp.VerifSetCache(1 + rng.Intn(6)) /* a small cache keeps real fetches (and loads) in flight */
 		c := &verifConc{verifSession: verifNewSession(w, out, sid, false)}
 		c.s = NewState(80, 24, c.callback)
-		start := []string{"alice", "n2"}[rng.Intn(2)]
-		target := map[string]string{"alice": "/users/alice", "n2": "/notes/n2"}[start]
+		start := []string{"a", "p"}[rng.Intn(2)]
+		target := map[string]string{"a": w.startA, "p": w.startP}[start]
 		out.Emit(verifkit.M{"ev": "reset", "sid": sid, "start": start})
 		if rng.Intn(4) == 0 {
 			/* the feed command on a state of its own (its goroutine may outlive the settle) */
@@ -829,7 +891,7 @@ func TestVerifConc(t *testing.T) {
 			os.Setenv("VERIF_HOOK_SLEEP_MS", "150")
 			lc := &verifConc{verifSession: verifNewSession(w, out, sid, false)}
 			lc.s = NewState(80, 24, lc.callback)
-			if err := lc.s.Subcommand("open", w.h.URL("/users/alice")); err == nil && lc.settle(8*time.Second) {
+			if err := lc.s.Subcommand("open", w.h.URL(w.startA)); err == nil && lc.settle(8*time.Second) {
 				issued, returned := 0, int32(0)
 				press := func(b byte) {
 					issued++
